@@ -10,7 +10,7 @@ sys.path.insert(0, os.path.join(VERIF, "lib"))
 import props  # noqa: E402
 
 TEXT = {
-    "C01": ("fieldops", "differential u128/GMP oracle over boundary-directed operand families, path classifier",
+    "C01": ("fieldops", "differential u128/GMP oracle over boundary-directed operand families, path classifier, literal-operand call sites, plain-thread concurrent callers",
             "Every scalar op in every call/aliasing form is executed on operand pairs constructed to hit each carry/borrow/hi-word path "
             "(observed classes are listed, a missing class makes the run inconclusive) and on 2*10^8 (quick) / 2*10^10 (thorough) mixed "
             "random pairs, prod and ASan/UBSan builds; held on the executed pairs only.",
@@ -19,21 +19,21 @@ TEXT = {
             "inv/div/exp compared with the oracle on directed (Fibonacci, floor(p/k), 2^k+-1, aliases) and random operands; refusal of zero "
             "divisors observed in forked children; non-termination would surface as a per-case watchdog violation.",
             "u128 oracle; watchdog firing once is inconclusive, twice (alone, fresh process) a violation"),
-    "C15": ("fieldops", "GMP floor-mod oracle over conversion boundaries, all radices 2..36, the same literal in consecutive radices, plain-thread concurrent callers, int32 exhaustive in thorough",
+    "C15": ("fieldops", "GMP floor-mod oracle over conversion boundaries, all radices 2..36, the same literal in consecutive radices, in-place outward conversions, plain-thread concurrent callers, int32 exhaustive in thorough",
             "All conversion entry points compared with GMP floor-mod semantics on boundary neighbourhoods, every int32 (thorough), "
             "big integers of both signs as strings and mpz; predicates on representation pairs.",
             "GMP string parsing/printing is trusted as the reference for radix conversion"),
 }
 
 TEXT.update({
-    "C02": ("vecops", "per-lane differential oracle under each kernel's documented operand assumption, lane rotation, path classifier",
+    "C02": ("vecops", "per-lane differential oracle under each kernel's documented operand assumption, lane rotation, path classifier, in-place register forms, -mavx2 / ASan+UBSan / -march=native builds",
             "All 16 AVX2 lane kernels executed with every lane carrying a different boundary-directed pair, constrained to exactly the documented "
             "precondition; results compared per lane with the scalar oracle (prod and ASan/UBSan builds). Held on executed lane inputs only.",
             "u128 oracle; preconditions taken from the header comments (never stricter)"),
-    "C11": ("vecops", "per-lane differential oracle (8 lanes) on the AVX-512 build the shipped tests never compile",
+    "C11": ("vecops", "per-lane differential oracle (8 lanes) on the AVX-512 build the shipped tests never compile (-mavx512f, ASan+UBSan and -march=native builds)",
             "Same monitor as C02 for the 13 AVX-512 kernels, built with -mavx512f -D__AVX512__ and executed on this CPU's AVX-512F.",
             "u128 oracle; requires an AVX-512F CPU (otherwise inconclusive); valgrind cannot run AVX-512 so memory side is ASan only"),
-    "C13": ("vecops", "integer matrix-vector oracle, band-directed operands (lane products constructed to land in [p,2^64)), aliased result registers, changed matrix at the same address, plain-thread concurrent callers",
+    "C13": ("vecops", "integer matrix-vector oracle, band-directed operands (lane products constructed to land in [p,2^64)), aliased result registers, changed matrix at the same address, coefficient arrays of exact extent before an unmapped page, -march=native build, plain-thread concurrent callers",
             "dot/spmv/mmult AVX2 kernels (aligned, unaligned at offsets 0..3, 8-bit variants) compared with the matrix oracle on seven operand "
             "families (incl. coefficients below 2^32 and 8-bit low words with a high word set), with the result register being a state register, and a second time with the matrix changed in place; the number of non-canonical intermediate products actually produced is measured by probing the lane kernels.",
             "u128 oracle; documented layouts (row-major 12x12, block-diagonal 4x12)"),
@@ -49,14 +49,14 @@ TEXT.update({
             "placed by strides / index arrays in sentinel arenas; every designated coefficient compared with the scalar oracle, every other cell must be untouched, "
             "a second call with another sentinel must give identical bits; prod/prod512/asan/asan512 builds. A changed overload set makes the run inconclusive.",
             "expected behaviour is the naming convention of the header (digits = operand kinds, c = constant), not any single definition; stray reads that stay inside the arena and do not change results are invisible"),
-    "C17": ("wrappers", "generated thunk per declared overload, u128 oracle per lane, sentinel arenas, exact-extent inputs before an unmapped page, sparse mappings for strides of 2^28..2^30 elements, guard-page/framed buffers for parcpy/parSetZero",
+    "C17": ("wrappers", "generated thunk per declared overload, u128 oracle per lane, sentinel arenas, exact-extent inputs before an unmapped page, broadcast scalar passed as an lvalue of the result array, sparse mappings for strides of 2^28..2^30 elements, guard-page/framed buffers for parcpy/parSetZero",
             "All 160 defined copy/add/sub/mul _batch/_avx/_avx512 overloads (table re-derived from the header at check time; the one declared-but-undefined overload is link-probed) "
             "executed with strided / indexed / broadcast / register operands in sentinel arenas; parcpy/parSetZero over the size x thread-argument grid (INT_MIN, -1, 0 included) in guard-page buffers.",
             "family convention from parameter names is the specification; overlapping result positions excluded; libgomp team sizes capped at 1024"),
 })
 
 TEXT.update({
-    "C03": ("ntt", "DFT oracle over an exhaustive small-configuration lattice + sampled large sizes, Freivalds random columns, guard-page buffers, crash attribution, hook schedule log",
+    "C03": ("ntt", "DFT oracle over an exhaustive small-configuration lattice + sampled large sizes, Freivalds random columns, guard-page buffers, crash attribution, hook schedule log, callers inside an OpenMP team",
             "Every (maxDomain, size, ncols, nphase, nblock, buffer, alias) combination up to 2^6 (quick) / 2^9 (thorough) and samples up to 2^13 / 2^20 (+2^22) is executed on the "
             "pthread OpenMP stand-in with permuted member order, a 5% slice on real libgomp and a slice under ASan/UBSan, and compared at every output position with an "
             "independent DFT; source-unchanged, no-op (size 0 / 0 columns), null destination and abort/crash are observed per configuration.",
@@ -97,7 +97,7 @@ TEXT.update({
 })
 
 TEXT.update({
-    "C09": ("cubic", "schoolbook polynomial oracle (integer product, x^3=x+1), exhaustive 12^6 boundary pairs, aliasing forms, a*inv(a)=1, all batch lengths, isOne representation grid",
+    "C09": ("cubic", "schoolbook polynomial oracle (integer product, x^3=x+1), exhaustive 12^6 boundary pairs, aliasing forms, a*inv(a)=1, all batch lengths, isOne representation grid, decimal strings beyond 64 bits, plain-thread concurrent callers",
             "Every scalar cubic-extension overload compared with the oracle on all 12^6 boundary coefficient pairs and 3*10^7 (quick) / 10^9 (thorough) mixed pairs, inversion on "
             "structured elements, batchInverse for every length 1..130 and up to 4*10^5 (3*10^6 thorough) elements in forked children, isOne on every representation of one and on "
             "near-ones; prod and ASan/UBSan builds. Found F10 (isOne) and F11 (batchInverse stack overflow) on the pinned tree, fixed in /repo 1e163bd and 76c4efa.",
